@@ -35,6 +35,19 @@ fn main() {
                     for n in &t { if let RefNode::Locate(l) = n { leaves.push((l.offset, l.line, l.len, t.get_str(l).unwrap().to_string())); } }
                     println!("LEAVES: {:?}", leaves);
                     if args.iter().any(|a| a=="--tree") { println!("{}", t); }
+                    if args.iter().any(|a| a=="--skel") {
+                        let mut wsd = 0usize; let mut o = String::new();
+                        for ev in (&t).into_iter().event() {
+                            match ev {
+                                NodeEvent::Enter(RefNode::WhiteSpace(_)) => { wsd += 1; }
+                                NodeEvent::Leave(RefNode::WhiteSpace(_)) => { wsd -= 1; }
+                                NodeEvent::Enter(RefNode::Locate(l)) => { if wsd == 0 { o.push_str(&format!("'{}' ", t.get_str(l).unwrap())); } }
+                                NodeEvent::Enter(x) => { if wsd == 0 { o.push_str(&format!("{} ", x)); } }
+                                _ => {}
+                            }
+                        }
+                        println!("SKEL: {}", o);
+                    }
                     if args.iter().any(|a| a=="--dbg") { let root = (&t).into_iter().next().unwrap(); println!("DBG: {:?}", root); let names: Vec<String> = (&t).into_iter().map(|n| format!("{}", n)).collect(); println!("ITER: {}", names.join(" ")); }
                 }
                 Err(e) => println!("ERR: {:?}", e),
